@@ -1,6 +1,7 @@
 import GlmVerif.Sem.Field
 import GlmVerif.Core.Guard
 import Mathlib.Algebra.Order.Field.Basic
+import Mathlib.Tactic.Linarith
 
 /-!
 Soundness of the definedness check `Tree.guarded` in every ordered-field semantics.
@@ -12,6 +13,7 @@ variable {K : Type} [Field K] [LinearOrder K] [IsStrictOrderedRing K]
 structure OrderedLike (o : Ops K) : Prop extends FieldLike o where
   lt : ∀ a b, o.lt a b = decide (a < b)
   le : ∀ a b, o.le a b = decide (a ≤ b)
+  eps_nonneg : 0 ≤ o.konst .eps
 
 /-- the semantic counterpart of `E.guarded`: every partial call evaluated inside `e` is in range -/
 def E.Defined (o : Ops K) (env : Nat → K) : E → Prop
@@ -47,6 +49,43 @@ theorem E.nonnegSyn_sound {o : Ops K} (ho : FieldLike o) (env : Nat → K) (e : 
     simp only [E.eval, ho.add]; exact add_nonneg (iha h.1) (ihb h.2)
   | _ => simp [E.nonnegSyn] at h
 
+theorem factsOf_sound {o : Ops K} (ho : OrderedLike o) (env : Nat → K) {path : Path}
+    (hp : pathHolds o env path) {d : E} {strict : Bool} (h : (d, strict) ∈ factsOf path) :
+    0 ≤ d.eval o env ∧ (strict = true → 0 < d.eval o env) := by
+  simp only [factsOf, List.mem_filterMap] at h
+  obtain ⟨cb, hmem, hcb⟩ := h
+  have hc := hp cb hmem
+  split at hcb
+  · rename_i p q
+    simp only [Option.some.injEq, Prod.mk.injEq] at hcb; obtain ⟨rfl, rfl⟩ := hcb
+    simp only [C.eval, ho.lt, decide_eq_true_eq] at hc
+    simp only [E.eval, ho.sub]; exact ⟨by linarith, fun _ => by linarith⟩
+  · rename_i q p
+    simp only [Option.some.injEq, Prod.mk.injEq] at hcb; obtain ⟨rfl, rfl⟩ := hcb
+    simp only [C.eval, ho.le, decide_eq_false_iff_not, not_le] at hc
+    simp only [E.eval, ho.sub]; exact ⟨by linarith, fun _ => by linarith⟩
+  · rename_i p q
+    simp only [Option.some.injEq, Prod.mk.injEq] at hcb; obtain ⟨rfl, rfl⟩ := hcb
+    simp only [C.eval, ho.le, decide_eq_true_eq] at hc
+    simp only [E.eval, ho.sub]; exact ⟨by linarith, fun h => by simp at h⟩
+  · rename_i q p
+    simp only [Option.some.injEq, Prod.mk.injEq] at hcb; obtain ⟨rfl, rfl⟩ := hcb
+    simp only [C.eval, ho.lt, decide_eq_false_iff_not, not_lt] at hc
+    simp only [E.eval, ho.sub]; exact ⟨by linarith, fun h => by simp at h⟩
+  · simp at hcb
+
+theorem slackNonneg_sound {o : Ops K} (ho : OrderedLike o) (env : Nat → K) {d : E}
+    (h : slackNonneg d = true) : 0 ≤ d.eval o env := by
+  have hr := ho.toRingLike
+  simp only [slackNonneg, Bool.or_eq_true] at h
+  rcases h with (((h | h) | h) | h) | h
+  · rw [polyEq_sound' hr h env]; simp [E.eval, ho.lit]
+  · rw [polyEq_sound' hr h env]; simp [E.eval, ho.lit]
+  · rw [polyEq_sound' hr h env]; simp [E.eval, ho.lit]
+  · rw [polyEq_sound' hr h env]; simpa [E.eval] using ho.eps_nonneg
+  · rw [polyEq_sound' hr h env]; simp only [E.eval, ho.add, ho.lit]
+    have := ho.eps_nonneg; push_cast; linarith
+
 theorem pathLE_sound {o : Ops K} (ho : OrderedLike o) (env : Nat → K) {path : Path} {x y : E}
     (h : pathLE path x y = true) (hp : pathHolds o env path) : x.eval o env ≤ y.eval o env := by
   unfold pathLE at h
@@ -58,45 +97,22 @@ theorem pathLE_sound {o : Ops K} (ho : OrderedLike o) (env : Nat → K) {path : 
       simp only [E.eval, ho.lit]; exact_mod_cast h
     · simp at h
   · rw [List.any_eq_true] at h
-    obtain ⟨cb, hmem, hcb⟩ := h
-    have hc := hp cb hmem
-    have hr := ho.toRingLike
-    split at hcb
-    · rename_i x' y'
-      simp only [Bool.and_eq_true] at hcb
-      simp only [C.eval, ho.le, decide_eq_true_eq] at hc
-      rw [polyEq_sound' hr hcb.1 env, polyEq_sound' hr hcb.2 env]; exact hc
-    · rename_i y' x'
-      simp only [Bool.and_eq_true] at hcb
-      simp only [C.eval, ho.lt, decide_eq_false_iff_not, not_lt] at hc
-      rw [polyEq_sound' hr hcb.1 env, polyEq_sound' hr hcb.2 env]; exact hc
-    · rename_i x' y'
-      simp only [Bool.and_eq_true] at hcb
-      simp only [C.eval, ho.lt, decide_eq_true_eq] at hc
-      rw [polyEq_sound' hr hcb.1 env, polyEq_sound' hr hcb.2 env]; exact le_of_lt hc
-    · rename_i y' x'
-      simp only [Bool.and_eq_true] at hcb
-      simp only [C.eval, ho.le, decide_eq_false_iff_not, not_le] at hc
-      rw [polyEq_sound' hr hcb.1 env, polyEq_sound' hr hcb.2 env]; exact le_of_lt hc
-    · simp at hcb
+    obtain ⟨⟨d, strict⟩, hmem, hs⟩ := h
+    have hd := (factsOf_sound ho env hp hmem).1
+    have hsl := slackNonneg_sound ho env hs
+    simp only [E.eval, ho.sub] at hsl
+    linarith
 
 theorem pathLT_sound {o : Ops K} (ho : OrderedLike o) (env : Nat → K) {path : Path} {x y : E}
     (h : pathLT path x y = true) (hp : pathHolds o env path) : x.eval o env < y.eval o env := by
   unfold pathLT at h
   rw [List.any_eq_true] at h
-  obtain ⟨cb, hmem, hcb⟩ := h
-  have hc := hp cb hmem
-  have hr := ho.toRingLike
-  split at hcb
-  · rename_i x' y'
-    simp only [Bool.and_eq_true] at hcb
-    simp only [C.eval, ho.lt, decide_eq_true_eq] at hc
-    rw [polyEq_sound' hr hcb.1 env, polyEq_sound' hr hcb.2 env]; exact hc
-  · rename_i y' x'
-    simp only [Bool.and_eq_true] at hcb
-    simp only [C.eval, ho.le, decide_eq_false_iff_not, not_le] at hc
-    rw [polyEq_sound' hr hcb.1 env, polyEq_sound' hr hcb.2 env]; exact hc
-  · simp at hcb
+  obtain ⟨⟨d, strict⟩, hmem, hs⟩ := h
+  simp only [Bool.and_eq_true] at hs
+  have hd := (factsOf_sound ho env hp hmem).2 hs.1
+  have hsl := slackNonneg_sound ho env hs.2
+  simp only [E.eval, ho.sub] at hsl
+  linarith
 
 theorem nonnegOK_sound {o : Ops K} (ho : OrderedLike o) (env : Nat → K) {path : Path} {a : E}
     (h : nonnegOK path a = true) (hp : pathHolds o env path) : 0 ≤ a.eval o env := by
